@@ -81,6 +81,19 @@ theorem C18_connected_symm (p q : Option Period) :
   · cases p <;> cases q <;> simp [periodsConnected, Bool.and_comm]
   · cases p <;> rfl
 
+/-- Overlap implies overlap-or-touch, for all inputs (no hypothesis, nil and degenerate periods included). -/
+theorem C18_intersect_implies_connected (p q : Option Period) :
+    periodsIntersect p q = true → periodsConnected p q = true := by
+  cases p with
+  | none => intro h; cases h
+  | some p =>
+    cases q with
+    | none => intro h; cases h
+    | some q =>
+      simp only [periodsIntersect, periodsConnected, Bool.and_eq_true, decide_eq_true_eq]
+      intro ⟨h1, h2⟩
+      exact ⟨by omega, by omega⟩
+
 /-- The complete decision table of `cut.CompareTo` (all four kinds of cut on either side, every
 timestamp, no hypothesis): the result is -1, 0 or 1 and is the sign of the lexicographic comparison of
 the keys `(class, seconds, nanos, side)` — `belowAll` first, `aboveAll` last, value cuts by timestamp
